@@ -74,6 +74,8 @@ class VGen:
     def ndarray(self):
         self.ident()
         shape = self.r.choice([[3], [2, 3], [0], [], [2, 0, 2], [4, 1], [1, 1, 2]])
+        if self.r.random() < 0.015:
+            shape = self.r.choice([[380, 360], [140000], [3, 50000]])      # above a megabyte for 8-byte items
         return ["ndarray", self.r.choice(DTYPES), shape, self.r.choice(["C", "F"]), self.r.randint(0, 99), self.r.random() < 0.3]
 
     def objarray(self, d):
